@@ -28,7 +28,7 @@ m["checked_with"] = f"tools/try_seeded.sh seeded/{pid}-{rnd} {pid} quick   (scra
 m["result"] = result
 m["caught_by"] = caught_by
 m["history"] = history
-m["author"] = "independent sub-agent (third round: given the property text and one-line summaries of the two earlier changes, told to pick a different site/mechanism)"
+m["author"] = "independent sub-agent (round given in the directory name: given the property text and one-line summaries of all earlier changes for the property, told to pick a different site/mechanism)"
 if os.path.exists(os.path.join(src, "patch.orig.diff")):
     m["rebased"] = "patch.diff is the sub-agent's change rebased over a later fix: commit in /repo (patch.orig.diff is what the sub-agent delivered); re-confirmed after rebasing"
 json.dump(m, open(os.path.join(dst, "meta.json"), "w"), indent=1)
